@@ -22,6 +22,9 @@ Gen/Crc64.vos Gen/Crc64.vok Gen/Crc64.required_vos: Gen/Crc64.v
 Gen/Resp.vo Gen/Resp.glob Gen/Resp.v.beautified Gen/Resp.required_vo: Gen/Resp.v 
 Gen/Resp.vio: Gen/Resp.v 
 Gen/Resp.vos Gen/Resp.vok Gen/Resp.required_vos: Gen/Resp.v 
+Model/Backlog.vo Model/Backlog.glob Model/Backlog.v.beautified Model/Backlog.required_vo: Model/Backlog.v Base/Bytes.vo
+Model/Backlog.vio: Model/Backlog.v Base/Bytes.vio
+Model/Backlog.vos Model/Backlog.vok Model/Backlog.required_vos: Model/Backlog.v Base/Bytes.vos
 Model/CmdFilter.vo Model/CmdFilter.glob Model/CmdFilter.v.beautified Model/CmdFilter.required_vo: Model/CmdFilter.v Base/Bytes.vo Model/Filter.vo Gen/CmdTable.vo
 Model/CmdFilter.vio: Model/CmdFilter.v Base/Bytes.vio Model/Filter.vio Gen/CmdTable.vio
 Model/CmdFilter.vos Model/CmdFilter.vok Model/CmdFilter.required_vos: Model/CmdFilter.v Base/Bytes.vos Model/Filter.vos Gen/CmdTable.vos
@@ -40,6 +43,9 @@ Model/Slot.vos Model/Slot.vok Model/Slot.required_vos: Model/Slot.v Base/Bytes.v
 Model/SlotKeys.vo Model/SlotKeys.glob Model/SlotKeys.v.beautified Model/SlotKeys.required_vo: Model/SlotKeys.v Base/Bytes.vo Base/Table.vo Base/Dec.vo Spec/Crc16.vo Gen/Crc16.vo
 Model/SlotKeys.vio: Model/SlotKeys.v Base/Bytes.vio Base/Table.vio Base/Dec.vio Spec/Crc16.vio Gen/Crc16.vio
 Model/SlotKeys.vos Model/SlotKeys.vok Model/SlotKeys.required_vos: Model/SlotKeys.v Base/Bytes.vos Base/Table.vos Base/Dec.vos Spec/Crc16.vos Gen/Crc16.vos
+Proofs/BacklogProofs.vo Proofs/BacklogProofs.glob Proofs/BacklogProofs.v.beautified Proofs/BacklogProofs.required_vo: Proofs/BacklogProofs.v Base/Bytes.vo Base/Table.vo Model/Backlog.vo
+Proofs/BacklogProofs.vio: Proofs/BacklogProofs.v Base/Bytes.vio Base/Table.vio Model/Backlog.vio
+Proofs/BacklogProofs.vos Proofs/BacklogProofs.vok Proofs/BacklogProofs.required_vos: Proofs/BacklogProofs.v Base/Bytes.vos Base/Table.vos Model/Backlog.vos
 Proofs/CmdFilterProofs.vo Proofs/CmdFilterProofs.glob Proofs/CmdFilterProofs.v.beautified Proofs/CmdFilterProofs.required_vo: Proofs/CmdFilterProofs.v Base/Bytes.vo Model/Filter.vo Model/CmdFilter.vo Gen/CmdTable.vo
 Proofs/CmdFilterProofs.vio: Proofs/CmdFilterProofs.v Base/Bytes.vio Model/Filter.vio Model/CmdFilter.vio Gen/CmdTable.vio
 Proofs/CmdFilterProofs.vos Proofs/CmdFilterProofs.vok Proofs/CmdFilterProofs.required_vos: Proofs/CmdFilterProofs.v Base/Bytes.vos Model/Filter.vos Model/CmdFilter.vos Gen/CmdTable.vos
@@ -73,6 +79,9 @@ Props/C13.vos Props/C13.vok Props/C13.required_vos: Props/C13.v Base/Bytes.vos M
 Props/C15.vo Props/C15.glob Props/C15.v.beautified Props/C15.required_vo: Props/C15.v Base/Bytes.vo Base/Dec.vo Spec/Crc16.vo Spec/Slot.vo Gen/Crc16.vo Model/Slot.vo Proofs/SlotProofs.vo
 Props/C15.vio: Props/C15.v Base/Bytes.vio Base/Dec.vio Spec/Crc16.vio Spec/Slot.vio Gen/Crc16.vio Model/Slot.vio Proofs/SlotProofs.vio
 Props/C15.vos Props/C15.vok Props/C15.required_vos: Props/C15.v Base/Bytes.vos Base/Dec.vos Spec/Crc16.vos Spec/Slot.vos Gen/Crc16.vos Model/Slot.vos Proofs/SlotProofs.vos
+Props/C18.vo Props/C18.glob Props/C18.v.beautified Props/C18.required_vo: Props/C18.v Base/Bytes.vo Model/Backlog.vo Proofs/BacklogProofs.vo
+Props/C18.vio: Props/C18.v Base/Bytes.vio Model/Backlog.vio Proofs/BacklogProofs.vio
+Props/C18.vos Props/C18.vok Props/C18.required_vos: Props/C18.v Base/Bytes.vos Model/Backlog.vos Proofs/BacklogProofs.vos
 Spec/Crc16.vo Spec/Crc16.glob Spec/Crc16.v.beautified Spec/Crc16.required_vo: Spec/Crc16.v Base/Bytes.vo Base/Table.vo
 Spec/Crc16.vio: Spec/Crc16.v Base/Bytes.vio Base/Table.vio
 Spec/Crc16.vos Spec/Crc16.vok Spec/Crc16.required_vos: Spec/Crc16.v Base/Bytes.vos Base/Table.vos
